@@ -10,8 +10,8 @@
    * `np.sum(prof.dzsum < z) + 1` counts over the WHOLE array; the loops then visit a PREFIX of that length
      (evap_layer_water_content: count+1 compartments; the two extraction loops `while ... and comp < comp_sto` with
      `comp` starting at -1 and incremented first: up to count+2 compartments — one more than the layer sums).
-   * stage 1 clamps the available water `AvW` at 0, stage 2 does not: in the extra compartment the factor
-     `1 - (dzsum - z)/dz` is <= 0 and a negative `AvW` is "extracted" (water is added, EsAct decreases).
+   * both stages clamp the available water `AvW` at 0 (stage 2 since repo commit 4d991b1; before it a negative `AvW`
+     was "extracted" from the extra compartment, whose factor `1 - (dzsum - z)/dz` is <= 0).
    * `Wsurf = Wsurf - EsAct` subtracts the evaporation taken from ponded water as well.
    * the incoming `NewCond_Epot` is never read (overwritten by EsPot); it is not an argument of the model.
    * `x ** 2`, `x ** 3` are libm pow (both for float and np.float64); pow(x,2) differs from x*x on ~0.09 % of doubles,
@@ -66,9 +66,9 @@ Section M.
     let w := nround_np num_ops 2 ((el_act e - (el_fc e - rew)) / (el_sat e - (el_fc e - rew))) in
     if w <? #0 then #0 else w.
 
-  (* the two extraction loops `while (Extract > 0) and (comp < comp_sto)`; [clamp] = stage 1 (`if AvW < 0: AvW = 0`).
+  (* the two extraction loops `while (Extract > 0) and (comp < comp_sto)` (identical in stage 1 and stage 2).
      [n] = comp_sto + 1 = number of compartments that may be visited.  Result (th, Extract, EsAct, ToExtract). *)
-  Fixpoint ev_extract (clamp : bool) (n : nat) (z : F) (p : list (Comp F)) (th : list F) (ex es te : F)
+  Fixpoint ev_extract (n : nat) (z : F) (p : list (Comp F)) (th : list F) (ex es te : F)
     : option (list F * F * F * F) :=
     if ex >? #0 then
       match n with
@@ -80,11 +80,11 @@ Section M.
           let wdry := #1000 * c_th_dry c * c_dz c in
           let w := #1000 * t * c_dz c in
           let avw0 := (w - wdry) * f in
-          let avw := if clamp && (avw0 <? #0) then #0 else avw0 in
+          let avw := if avw0 <? #0 then #0 else avw0 in
           if avw >=? ex then
             Some ((w - ex) / (#1000 * c_dz c) :: th', #0, es + ex, te - ex)
           else
-            match ev_extract clamp n' z p' th' (ex - avw) (es + avw) (te - avw) with
+            match ev_extract n' z p' th' (ex - avw) (es + avw) (te - avw) with
             | None => None
             | Some (thr, ex', es', te') => Some ((w - avw) / (#1000 * c_dz c) :: thr, ex', es', te')
             end
@@ -146,7 +146,7 @@ Section M.
     match ev_step_demand p wstage2 rew fwrelexp fevap zmin zmax edt th z with
     | None => None
     | Some (z', toextractstg2) =>
-      match ev_extract false (Z.to_nat (ev_count p z' + 2)) z' p th toextractstg2 es te with
+      match ev_extract (Z.to_nat (ev_count p z' + 2)) z' p th toextractstg2 es te with
       | None => None
       | Some (th', _, es', te') => Some (th', z', es', te')
       end
@@ -271,7 +271,7 @@ Section M.
           {| em_espot := espot; em_surf := surf'; em_wsurf := ws; em_wstage2 := wst; em_stage2 := stage22;
              em_evapz := evapz2; em_th := th1; em_es := es1; em_te := te1 |} in
         if ex1 >? #0 then
-          match ev_extract true (Z.to_nat (ev_count p zmin + 2)) zmin p th ex1 esact0 toextract0 with
+          match ev_extract (Z.to_nat (ev_count p zmin + 2)) zmin p th ex1 esact0 toextract0 with
           | None => None
           | Some (th1, ex1', es1, te1) =>
             let ws := wsurf2 - es1 in
